@@ -12,6 +12,7 @@ import time
 import traceback
 
 VERIF = os.path.dirname(os.path.dirname(os.path.abspath(__file__)))
+OUT = os.environ.get("VERIF_OUT", VERIF)  # where evidence/ and replays/ are written (mutation self-tests redirect it)
 PY = sys.executable
 NCPU = int(os.environ.get("VERIF_WORKERS", "16"))
 
@@ -238,8 +239,8 @@ def worker_main(pid, tier, verif_seed, widx, nworkers, count, budget_s, outfile)
                         small, v2 = scenario, [v]
                 except Exception:
                     small, execs, v2 = scenario, -1, [v]
-                os.makedirs(os.path.join(VERIF, "replays"), exist_ok=True)
-                rp = os.path.join(VERIF, "replays", f"{pid}-{verif_seed}-{index}.json")
+                os.makedirs(os.path.join(OUT, "replays"), exist_ok=True)
+                rp = os.path.join(OUT, "replays", f"{pid}-{verif_seed}-{index}.json")
                 with open(rp, "w") as f:
                     json.dump({"property": pid, "signature": v2[0]["sig"], "class": cls, "message": v2[0]["msg"],
                                "hashseed": hs, "verif_seed": verif_seed, "run_index": index, "tier": tier,
@@ -431,8 +432,8 @@ def check(pid, tier, verif_seed):
         "wall_s": round(wall, 2),
         "violations": confirmed,
     }
-    os.makedirs(os.path.join(VERIF, "evidence"), exist_ok=True)
-    with open(os.path.join(VERIF, "evidence", f"{pid}.json"), "w") as f:
+    os.makedirs(os.path.join(OUT, "evidence"), exist_ok=True)
+    with open(os.path.join(OUT, "evidence", f"{pid}.json"), "w") as f:
         json.dump(ev, f, indent=1, sort_keys=True)
     print(f"{pid} {tier}: runs={len(records)} evaluations={evaluations} distinct_nontrivial={len(states_nontrivial)} "
           f"known={len(known_seen)} violations={confirmed} wall={wall:.1f}s")
